@@ -5,7 +5,17 @@ EXPR = ['HplSet', 'HplRange', 'HplLiteral', 'HplThisMessage', 'HplVarReference',
 _E = 'hpl.ast.expressions.'
 VERIFIED_CTORS = ['HplUnaryOperator', 'HplBinaryOperator', 'HplRange', 'HplFieldAccess', 'HplArrayAccess', 'HplLiteral',
                   'HplVarReference', 'HplThisMessage']
-ASSUMED_CTORS = ['HplSet', 'HplFunctionCall', 'HplQuantifier']
+ASSUMED_CTORS = ['HplSet', 'HplFunctionCall']
+QUANTIFIER_LEMMAS = ['vn_append', 'vn_unit', 'qb_append', 'qb_unit', 'vo_append', 'vo_unit', 'pa1', 'pa2',
+                     'mentions_pre_list', 'mentions_pre', 'binds_pre_list', 'binds_pre', 'uses_pre_list', 'uses_pre',
+                     'binds_ignores_types']
+
+
+def quantifier_ctor_tasks(tag):
+    """the quantifier constructor (validators walking iterate()) with the lemmas its proof uses: hosted by C03 only
+    (a 5-minute task); the other properties use its contract as a callee contract proved there"""
+    from pyvc.runner import Lem
+    return [*[Lem(l) for l in QUANTIFIER_LEMMAS], Fn(_E + 'HplQuantifier.__init__', safety_tag=tag)]
 
 
 def typing_tasks(tag):
@@ -17,8 +27,10 @@ def typing_tasks(tag):
 
 ASSUMPTIONS = [
     'ASSUMED contracts (bodies not verified, evaluated natively on the corpus by the bounded tier): constructors of '
-    'HplSet (comprehension converter), HplFunctionCall (overload matching loops), HplQuantifier (validators looping over iterate()), '
+    'HplSet (comprehension converter), HplFunctionCall (overload matching loops), '
     'HplPredicateExpression (reference table keyed by printed form)',
+    'the contract of HplQuantifier.__init__ is PROVED by the check of C03 (task hpl.ast.expressions.HplQuantifier.__init__); '
+    'the other properties use it as a callee contract',
     'operators and functions of a node are the built-in definitions (read from the live Builtin* enums on every run)',
     'an explicitly passed data_type keyword wider than the node kind allows is stored as given (API-only corner; the parser never passes one)',
     'A-ATTRS: attrs-generated __init__ text from linecache; attrs.evolve = constructor on the current init fields updated',
